@@ -175,6 +175,7 @@ func checkC17(res *Result) {
 		}
 		res.check(scanned["To"] && scanned["Cc"] && scanned["Audience"] && !scanned["Bto"] && !scanned["Bcc"], "C17-R3", fname(fn), p.pos(fn), "exactly to, cc and audience are examined for owned collections", fmt.Sprintf("scanned: %v", setList(scanned)))
 		// appends to myIRIs / colIRIs
+		sawOrdered, sawPlain := false, false
 		for _, ci := range callsIn(fn) {
 			bi, ok := ci.Common().Value.(*ssa.Builtin)
 			if !ok || bi.Name() != "append" {
@@ -185,21 +186,39 @@ func checkC17(res *Result) {
 			if s == nil {
 				continue
 			}
-			hasOwns, hasColl := false, false
-			for f := range s.facts {
-				if f.k == fTRUE {
-					for v, n := range ff.ids {
-						if fmt.Sprintf("v%d", n) == f.v {
-							if e, ok := v.(*ssa.Extract); ok && isCallNamed(e.Tuple, "Database.Owns") {
-								hasOwns = true
+			ownsPred := func(s *factState) bool {
+				for f := range s.facts {
+					if f.k == fTRUE {
+						for v, n := range ff.ids {
+							if fmt.Sprintf("v%d", n) == f.v {
+								if e, ok := v.(*ssa.Extract); ok && isCallNamed(e.Tuple, "Database.Owns") {
+									return true
+								}
 							}
 						}
 					}
-					if strings.HasPrefix(f.v, "pure:IsOrExtendsActivityStreamsOrderedCollection(") || strings.HasPrefix(f.v, "pure:IsOrExtendsActivityStreamsCollection(") {
-						hasColl = true
+				}
+				return false
+			}
+			collPred := func(s *factState) bool {
+				hit := false
+				for f := range s.facts {
+					if f.k != fTRUE {
+						continue
+					}
+					if strings.HasPrefix(f.v, "pure:IsOrExtendsActivityStreamsOrderedCollection(") {
+						sawOrdered, hit = true, true
+					}
+					if strings.HasPrefix(f.v, "pure:IsOrExtendsActivityStreamsCollection(") {
+						sawPlain, hit = true, true
 					}
 				}
+				return hit
 			}
+			_ = s
+			// on every path to the append (a named flag such as `usable := isOrdered || isPlain` is looked through)
+			hasColl := ff.holdsOnEveryPath(ci, collPred, 4)
+			hasOwns := ff.holdsOnEveryPath(ci, ownsPred, 4)
 			elemFromRecipients := anyBackward(g, ci.Common().Args[1], func(x ssa.Value) bool {
 				c, ok := x.(*ssa.Call)
 				return ok && staticName(c) == "pub.ToId"
@@ -230,7 +249,7 @@ func checkC17(res *Result) {
 				nCollGuard++
 			}
 		}
-		res.check(nCollGuard >= 2, "C17-R3", fname(fn), p.pos(fn), "both Collection and OrderedCollection are recognised", fmt.Sprintf("%d guarded appends", nCollGuard))
+		res.check(nCollGuard >= 1 && sawOrdered && sawPlain, "C17-R3", fname(fn), p.pos(fn), "both Collection and OrderedCollection are recognised", fmt.Sprintf("%d guarded appends; OrderedCollection test seen: %v, Collection test seen: %v", nCollGuard, sawOrdered, sawPlain))
 	}
 
 	// R4
